@@ -217,6 +217,13 @@ def funnel(rep, cfg):
             if Tm.contains(t, lambda s: shield(s)):
                 n_shielded += 1
         # the formatter / writer parameters are not the element
+        if b.get("impl_trait_def") == "ark_serialize::CanonicalSerialize":
+            # a serialiser must hand the complete encoding to the writer (write_all), not merely mention it
+            wa = [t for kind, t in outputs if kind == "write_all" and Tm.contains(t, lambda s_: shield(s_))]
+            if not wa:
+                bad.append("no write_all of the complete encoding reaches the writer")
+        for u in out.unmodelled:
+            bad.append("unmodelled construct on the output path: " + u)
         key = "FUNNEL/%s/%s" % (cfg.name, norm_path(p))
         rep.ob(key, not bad and n_shielded >= 1,
                "encoding entry point must observe the element only through bytes(encode(self)) (hex/format afterwards); " +
